@@ -856,12 +856,13 @@ def main():
         "thorough: full product, nf 3-6, all labels (%s configurations); quick: %d sampled configurations, nf 4, reduced label set" % (len(ab_configs((3, 4, 5, 6))), len(cfgs)),
         "settings symbolic: ev_op_iterations, ev_op_max_order[0] integers >= 1; n3lo_ad_variation seven integers; use_fhmruvv, alphaem_running Booleans; inversion method an opaque token; "
         "where the code converts the symbolic value (e.g. allocates an array of that length) the concrete pairs %r are compared instead" % (PAIRS,),
-        "site C: Couplings.compute, orders (1-4, 0), methods expanded and exact, nf 3-6, the flag symbolic in both executions",
+        "site C: Couplings.compute, orders (1-4, 0), methods expanded and exact, nf 3-6, the flag symbolic in both executions; "
+        "Couplings.a inside one nf=4 patch, symbolic reference and target scales on either side of the tau mass, compute an uninterpreted recorder",
         "site D: OperatorMatrixElement built for forward matching, matching orders 1-3, three sv modes; site E: Operator built for QCD-only configurations with concrete setting pairs",
     ]
     chk.out_of_claim = ["bitwise identity of complete solves (integration, interpolation, archive): only the Mellin-space integrand and the couplings are compared, over the reals",
                         "reading the cards from files / the EKO object (site F runs runner.parts._evolve_configs/_matching_configs on a stand-in object carrying opaque tokens)",
-                        "Couplings.a / cache (the cache key does not contain the flag; the flag is constant per object)",
+                        "Couplings cache (the cache key does not contain the flag; the flag is constant per object)",
                         "N3LO itself: how the variation tuple enters the N3LO anomalous dimensions"]
     chk.stubs = ["kernel bodies below the dispatchers, the QED iterated solutions and the per-order ekore functions: uninterpreted functions of their arguments",
                  "scipy.integrate.solve_ivp: uninterpreted function of (interval, initial value, args, method, rtol); float(): identity on symbols; Couplings.cache: disabled",
@@ -871,6 +872,9 @@ def main():
     for i, ch in enumerate(_chunks(cfgs, 10 if thorough else 6)):
         chk.case("AB.%02d" % i, case_AB, cfgs=ch, quick=quick)
     chk.case("couplings", case_couplings, nfs=(3, 4, 5, 6) if thorough else (4, 5))
+    from .cplkit import case_c55_em_flag  # site C': Couplings.a (tau-mass split inside a fixed-nf segment) with the flag symbolic
+
+    chk.case("couplings.a", case_c55_em_flag)
     chk.case("matching", case_matching, quick=quick)
     chk.case("operator", case_operator, quick=quick)
     chk.case("plumbing", case_plumbing)
